@@ -145,6 +145,9 @@ func genJWSPayload(rng *rand.Rand) []byte {
 	ws()
 	b.WriteString("{")
 	n := 1 + rng.IntN(5)
+	if rng.IntN(25) == 0 {
+		n = 0 // the empty object is an object
+	}
 	keys := []string{`"targetArtifact"`, `"size"`, `"a"`, `"b"`, `"exp"`, `"iat"`, `"nbf"`, `"aud"`, `"sub"`, `"annotations"`, `"a"`}
 	big := rng.IntN(3) == 0
 	for i := 0; i < n; i++ {
